@@ -35,6 +35,7 @@ func genC11Loser(t *rapid.T) E1Case {
 		op := E1Op{Op: e, Sizes: []int{rapid.IntRange(1, 20).Draw(t, "sz")}}
 		if e == "readfrom" {
 			op.N = 700
+			op.EOFData = rapid.Bool().Draw(t, "eofdata")
 		}
 		w.Ops = append(w.Ops, op)
 	}
@@ -102,6 +103,7 @@ func genC11(t *rapid.T) E1Case {
 		}
 		if e == "readfrom" {
 			op.N = 700
+			op.EOFData = rapid.Bool().Draw(t, "eofdata")
 		}
 		after.Ops = append(after.Ops, op)
 	}
